@@ -61,6 +61,12 @@ func unitsFor(prop, tier string) []Unit {
 			us = append(us, Unit{Prop: prop, Tier: tier, Kind: "x1", Index: i, Name: "x1/" + sc.Name})
 		}
 	}
+	if prop == "C18" || prop == "C19" || prop == "C20" {
+		n := procxParts(prop, tier)
+		for i := 0; i < n; i++ {
+			us = append(us, Unit{Prop: prop, Tier: tier, Kind: "procx", Index: i, Name: fmt.Sprintf("procx/%s/part-%d-of-%d", prop, i, n)})
+		}
+	}
 	if prop == "C14" {
 		for i, c := range httpxCombos() {
 			us = append(us, Unit{Prop: prop, Tier: tier, Kind: "httpx", Index: i, Name: fmt.Sprintf("httpx/profiling=%v/%s", c.profiling, c.history)})
@@ -142,6 +148,8 @@ func runUnit(u Unit) UnitResult {
 		return runX2Unit(u, x2Configs(u.Prop, u.Tier)[u.Index])
 	case "crashfs":
 		return runCrashUnit(u)
+	case "procx":
+		return runProcxUnit(u)
 	case "httpx":
 		return runHTTPXUnit(u)
 	case "defx":
